@@ -109,6 +109,7 @@ func checkC11(e *core.Env) {
 		var body []byte
 		bodyClass := "valid"
 		wantDecodable := true
+		midFrame := false
 		if kind == Unary {
 			if ctc.jsonCodec {
 				body, _ = protojson.Marshal(req)
@@ -134,11 +135,30 @@ func checkC11(e *core.Env) {
 			for k := 0; k < nreq; k++ {
 				msgs = append(msgs, genMsg(r, fmt.Sprintf("c11-%d-%d", i, k), false))
 			}
-			body = encodeStream(msgs, nil).bytes
+			fbs := encodeStream(msgs, nil)
+			body = fbs.bytes
 			switch r.Intn(6) {
 			case 0:
 				if len(body) > 2 {
-					body, bodyClass = body[:len(body)-1-r.Intn(len(body)-1)], "truncated"
+					cutAt := len(body) - 1 - r.Intn(len(body)-1)
+					if r.Intn(3) == 0 && len(fbs.msgEnds) > 0 {
+						// exactly after a size preface: not a single payload byte follows
+						k := r.Intn(len(fbs.msgEnds))
+						start := 0
+						if k > 0 {
+							start = fbs.msgEnds[k-1]
+						}
+						if fbs.msgEnds[k]-start > 4 {
+							cutAt = start + 4
+						}
+					}
+					body, bodyClass = body[:cutAt], "truncated"
+					midFrame = cutAt != 0
+					for _, me := range fbs.msgEnds {
+						if me == cutAt {
+							midFrame = false
+						}
+					}
 				}
 			case 1:
 				body, bodyClass = append(body, 0x7f, 0xff, 0xff, 0xff, 1, 2, 3), "hostile-prefix"
@@ -309,6 +329,17 @@ func checkC11(e *core.Env) {
 		if ntr != 1 || rest != 0 || tr == nil {
 			e.Violate(sig+"stream-reply-shape/"+bodyClass, fmt.Sprintf("streaming reply: %d data frames, %d trailer frames, %d stray bytes, trailer decodable=%v", len(data), ntr, rest, tr != nil), w)
 			return
+		}
+		if midFrame {
+			sawErr := false
+			for _, ev := range run.Rets("h", "recv") {
+				if ev.Err != nil && ev.Err != io.EOF {
+					sawErr = true
+				}
+			}
+			if !sawErr && len(run.Rets("h", "recv")) > 0 {
+				e.Violate(sig+"truncated-request-as-clean-end", "request body cut in the middle of a frame: the handler's receives ended with a clean io.EOF", w)
+			}
 		}
 		if (bodyClass == "truncated" || bodyClass == "undecodable-message" || bodyClass == "garbage") && sc.Ret.How == "recverr" {
 			// the handler returns its receive error: the caller must not be told OK
